@@ -1,5 +1,6 @@
 # configuration of ./check C13 (see checklib/props.py)
-PROP = {'level': 'proof',
+PROP = {'race': True,
+ 'level': 'proof',
  'rule': 'Every generated getter (Lookup, Get, Gets, GetString, LookupString, GetStrings) of every shipped and synthetic attribute on packets holding that attribute 1..3 times '
          '(plausible and hostile encodings, tags, salts) among other attributes: snapshot of the whole packet before / after, second read compared, every returned slice / IP / '
          'IPNet overwritten with its complement and the packet re-snapshotted; and the core observers on wire images (Parse vs. its input buffer incl. scribbling over the buffer afterwards, '
